@@ -499,7 +499,10 @@ def gen_foreign(rng, pool=None, shuffle=True, blanks=True, crlf=None,
             if not drop_optional or rng.chance(0.6):
                 opts.append(('format', 'json'))
         else:
-            if eff:
+            if eff in ('utf-16', 'utf-32') and rng.chance(0.2):
+                # a hunk from the middle of a file: no byte order mark
+                raw = gen_text(rng, eff, 8).encode(eff + '-le')
+            elif eff:
                 raw = gen_text(rng, eff, 8).encode(eff)
             else:
                 raw = bytes(rng.choice(DIFF_BYTES)
